@@ -434,3 +434,59 @@ def alias_table(fnode, defs=None):
     for v in out.values():
         ast.fix_missing_locations(v)
     return out
+
+
+def index_elementwise(expr):
+    """`tuple(f(a, b) for a, b in zip(A, B))[k]` -> `f(A[k], B[k])` (also
+    list(...), [...], a single iterable, enumerate-free): element k of an
+    element-wise construction is that construction on the k-th elements."""
+    import copy as _cp
+
+    class R(ast.NodeTransformer):
+        def visit_Subscript(self, n):
+            n = self.generic_visit(n)
+            if not (isinstance(n.slice, ast.Constant) and
+                    isinstance(n.slice.value, int)):
+                return n
+            v = n.value
+            if isinstance(v, ast.Call) and isinstance(v.func, ast.Name) and \
+                    v.func.id in ("tuple", "list") and len(v.args) == 1 and \
+                    not v.keywords:
+                v = v.args[0]
+            if isinstance(v, (ast.Tuple, ast.List)):
+                k = n.slice.value
+                if -len(v.elts) <= k < len(v.elts) and not any(
+                        isinstance(e, ast.Starred) for e in v.elts):
+                    return _cp.deepcopy(v.elts[k])
+                return n
+            if not isinstance(v, (ast.GeneratorExp, ast.ListComp)) or \
+                    len(v.generators) != 1:
+                return n
+            g = v.generators[0]
+            if g.ifs or g.is_async:
+                return n
+            it = g.iter
+            if isinstance(it, ast.Call) and isinstance(it.func, ast.Name) and \
+                    it.func.id == "zip" and not it.keywords:
+                srcs = it.args
+                tgts = g.target.elts if isinstance(
+                    g.target, (ast.Tuple, ast.List)) else None
+                if tgts is None or len(tgts) != len(srcs):
+                    return n
+            else:
+                srcs, tgts = [it], [g.target]
+            if not all(isinstance(t, ast.Name) for t in tgts):
+                return n
+            sub = {t.id: ast.Subscript(value=_cp.deepcopy(s_),
+                                       slice=ast.Constant(value=n.slice.value),
+                                       ctx=ast.Load())
+                   for t, s_ in zip(tgts, srcs)}
+
+            class S(ast.NodeTransformer):
+                def visit_Name(self, x):
+                    if isinstance(x.ctx, ast.Load) and x.id in sub:
+                        return _cp.deepcopy(sub[x.id])
+                    return x
+            out = S().visit(_cp.deepcopy(v.elt))
+            return ast.fix_missing_locations(ast.copy_location(out, n))
+    return R().visit(_cp.deepcopy(expr))
